@@ -16,11 +16,14 @@ coap_log_t coap_get_log_level(void) { return (coap_log_t)vin_scalar("log_level")
 void coap_log_impl(coap_log_t level, const char *format, ...) { (void)level; (void)format; }
 #else
 _Bool nondet_alloc_fail(void);
+int G_allocs;     /* ghost: blocks currently owned through the library allocator (leak accounting of the C18 units) */
 void *coap_malloc_type(coap_memory_tag_t type, size_t size) {
   (void)type;
   _Bool alloc_fail = nondet_alloc_fail();
   if (alloc_fail) return NULL;
-  return malloc(size);
+  void *q = malloc(size);
+  if (q) G_allocs++;
+  return q;
 }
 void *coap_realloc_type(coap_memory_tag_t type, void *p, size_t size) {
   (void)type;
@@ -33,11 +36,12 @@ void *coap_realloc_type(coap_memory_tag_t type, void *p, size_t size) {
    * Over-approximates realloc (contents havocked); byte-content clauses live in the bounded tier. */
   void *q = malloc(size);
   if (q == NULL) return NULL;
+  if (p == NULL) G_allocs++;
   free(p);
   return q;
 #endif
 }
-void coap_free_type(coap_memory_tag_t type, void *p) { (void)type; free(p); }
+void coap_free_type(coap_memory_tag_t type, void *p) { (void)type; if (p) G_allocs--; free(p); }
 coap_log_t nondet_log_level(void);
 coap_log_t coap_get_log_level(void) {
   coap_log_t log_level = nondet_log_level();
